@@ -8,6 +8,7 @@ from fractions import Fraction
 
 from harness.lib.framework import Prop, coq_bool, coq_list, coq_nat, coq_N, coq_opt, coq_str, coq_Z
 from harness.props.c14 import HwCodec, coq_hw, coq_storage, totals
+from harness.lib.looputil import permute_ready
 
 PATHS = ["/tmp", "/w", "/data"]
 CAP_LAYOUTS = [  # every layout resolves every path of PATHS (no fallback to remote mount-point discovery)
@@ -143,10 +144,7 @@ class PermutingLoop(asyncio.SelectorEventLoop):
             fut, self._quiesce = self._quiesce, None
             fut.set_result(None)
         if len(self._ready) > 1:
-            items = list(self._ready)
-            self._rng.shuffle(items)
-            self._ready.clear()
-            self._ready.extend(items)
+            permute_ready(self._ready, self._rng.shuffle)   # thread-safe, same order (harness/lib/looputil.py)
         self.turns += 1
         super()._run_once()
 
